@@ -73,32 +73,32 @@ def _ranges(bad):
     return complement_ranges(bad)
 
 
-def _concat_pieces(t):
+def _within_t(t, bad):
+    """z3 Bool `every character of the string term t is outside bad`, stated piecewise: L = C* for a character class C, so
+    a ++ b in L <=> a in L and b in L, and ite(c, a, b) in L <=> ite(c, a in L, b in L). Literal fragments and decimal
+    renderings of ints (str.from_int: digits only) are decided here; every other fragment gets its own membership atom —
+    the per-fragment sanitisation obligation."""
     import z3
-    if z3.is_app(t) and t.decl().kind() == z3.Z3_OP_SEQ_CONCAT:
-        out = []
-        for c in t.children():
-            out.extend(_concat_pieces(c))
-        return out
-    return [t]
+    from pyvc.core import str_value_to_pystr
+    from pyvc.libx_ui import all_in
+    if z3.is_string_value(t):
+        return z3.BoolVal(not any(ord(c) in bad for c in str_value_to_pystr(t)))
+    if z3.is_app(t):
+        k = t.decl().kind()
+        if k == z3.Z3_OP_SEQ_CONCAT:
+            return z3.And(*[_within_t(c, bad) for c in t.children()])
+        if k == z3.Z3_OP_ITE:
+            return z3.If(t.arg(0), _within_t(t.arg(1), bad), _within_t(t.arg(2), bad))
+        if k == z3.Z3_OP_INT_TO_STR:
+            return z3.BoolVal(not any(ord(c) in bad for c in "0123456789"))
+    return all_in(t, _ranges(bad))
 
 
 def within(s, bad):
-    """no character of s is in the list of code points `bad`.  For a symbolic text the membership is stated piecewise over
-    the concatenation (L = C* for a character class C, so  a ++ b in L  <=>  a in L and b in L): literal fragments are
-    decided here, every other fragment gets its own membership atom — the sanitisation obligation per fragment."""
+    """no character of s is in the list of code points `bad`"""
     if isinstance(s, SStr):
-        import z3
-        from pyvc.core import simp, str_value_to_pystr
-        from pyvc.libx_ui import all_in
-        atoms = []
-        for p in _concat_pieces(simp(s.t)):
-            if z3.is_string_value(p):
-                if any(ord(c) in bad for c in str_value_to_pystr(p)):
-                    return SBool(z3.BoolVal(False))
-            else:
-                atoms.append(all_in(p, _ranges(bad)))
-        return SBool(z3.And(*atoms) if len(atoms) > 1 else (atoms[0] if atoms else z3.BoolVal(True)))
+        from pyvc.core import simp
+        return SBool(simp(_within_t(simp(s.t), bad)))
     return not any(ord(c) in bad for c in s)
 
 
@@ -128,6 +128,19 @@ _ORIG = {"indent": _dumper.indent, "format_address": _human.format_address, "b2e
          "pretty_size": _human.pretty_size, "echo": _dumper.Dumper.echo, "escape": _strutils.escape_control_characters, "style": _dumper.Dumper.style}
 
 STYLE_OPEN, STYLE_CLOSE = "⟪", "⟫"
+
+
+def _install_oracles():
+    """native oracles for the uninterpreted callee results (only used to obtain replayable counter-models)"""
+    from pyvc import lib
+    lib.UF_ORACLES.setdefault("bytes_to_escaped_str", lambda d, ks, esq: _ORIG["b2e"](d.encode("latin-1"), ks, esq))
+    lib.UF_ORACLES.setdefault("format_address", lambda h, p: _ORIG["format_address"]((h, p)))
+    lib.UF_ORACLES.setdefault("indent", lambda n, t: _ORIG["indent"](n, t))
+    lib.UF_ORACLES.setdefault("pretty_size", lambda n: _ORIG["pretty_size"](n) if n >= 0 else "0b")
+
+
+_install_oracles()
+ESC_BYTES = [{"h_k0": b"x-a", "h_v0": b"v\x1b[2J", "h_k1": b"x\x07b", "h_v1": b"\x00"}, {"h_k0": b"\x1b", "h_v0": b"v", "h_k1": b"b", "h_v1": b"c"}, {"h_k0": b"a", "h_v0": b"\xc2\x9b", "h_k1": b"\xc2\x85", "h_v1": b"c"}]
 
 
 def _uf_str(vc, name, *args):
@@ -333,7 +346,7 @@ def mk_headers(vc, name, n=2):
     return vc.new(O, fields=fields)
 
 
-@scenario("_echo_headers/_echo_trailers", functions=[D + "._echo_headers", D + "._echo_trailers"])
+@scenario("_echo_headers/_echo_trailers", functions=[D + "._echo_headers", D + "._echo_trailers"], candidates=ESC_BYTES)
 def s_headers(vc):
     which = vc.case("function", ["_echo_headers", "_echo_trailers", "_echo_trailers(None)"])
     echoed = install_env(vc)
@@ -393,7 +406,7 @@ def s_fmt_client(vc):
         vc.ensure("result.clean", clean(o.result))
 
 
-@scenario("_echo_request_line", functions=[D + "._echo_request_line", D + "._fmt_client"], z3_timeout_ms=1500, slice_pc=True, feas_timeout_ms=300)
+@scenario("_echo_request_line", functions=[D + "._echo_request_line", D + "._fmt_client"], z3_timeout_ms=1500, slice_pc=True, feas_timeout_ms=300, stop_on_failure=True)
 def s_request_line(vc):
     replay = vc.case("is_replay", [None, "request"])
     pushed = vc.case("pushed", [False, True])
@@ -415,7 +428,7 @@ def s_request_line(vc):
     all_clean(vc, echoed)
 
 
-@scenario("_echo_response_line", functions=[D + "._echo_response_line"], z3_timeout_ms=1500, slice_pc=True, feas_timeout_ms=300)
+@scenario("_echo_response_line", functions=[D + "._echo_response_line"], z3_timeout_ms=1500, slice_pc=True, feas_timeout_ms=300, stop_on_failure=True)
 def s_response_line(vc):
     replay = vc.case("is_replay", [None, "response"])
     detail = vc.case("flow_detail", [1, 2])
@@ -440,11 +453,19 @@ def install_content(vc):
     tag1 = vc.case("tag1", ["name", "error", ""])
     pretty = vc.new(O, text=text, syntax_highlight="yaml", view_name="Raw", description="")
     vc.summary("mitmproxy.contentviews:prettify_message", lambda v, message, flow, view_name="auto", registry=None: pretty)
-    vc.summary("mitmproxy_rs.syntax_highlight:highlight", lambda v, t, lang: v.lift([(tag1, t[:k]), ("string", t[k:])]))
+
+    def highlight_model(v, t, lang):
+        if v.mode == "native":
+            return [(tag1, t[:k]), ("string", t[k:])]
+        c1, c2 = v.ex.fresh("str", "chunk"), v.ex.fresh("str", "chunk")
+        _assume(v, t == c1 + c2)
+        return v.lift([(tag1, c1), ("string", c2)])
+
+    vc.summary("mitmproxy_rs.syntax_highlight:highlight", highlight_model)
     return text
 
 
-@scenario("_echo_message", functions=[D + "._echo_message", SU + "cut_after_n_lines"], max_unroll=3, z3_timeout_ms=1500, slice_pc=True, feas_timeout_ms=300)
+@scenario("_echo_message", functions=[D + "._echo_message", SU + "cut_after_n_lines"], max_unroll=3, z3_timeout_ms=1500, slice_pc=True, feas_timeout_ms=300, stop_on_failure=True)
 def s_message(vc):
     detail = vc.case("flow_detail", [3, 4, 1])
     echoed = install_env(vc)
@@ -460,25 +481,28 @@ def s_message(vc):
     vc.ensure("content_echoed_iff_non_empty", Iff(len_(text) > 0, len(echoed) >= 2))
 
 
-@scenario("echo_flow", functions=[D + ".echo_flow", D + "._echo_request_line", D + "._echo_response_line", D + "._echo_headers",
-                                  D + "._echo_trailers", D + "._echo_message", D + "._fmt_client"], max_unroll=3, z3_timeout_ms=1500, slice_pc=True, feas_timeout_ms=300)
+@scenario("echo_flow", functions=[D + ".echo_flow"], z3_timeout_ms=1500, slice_pc=True, feas_timeout_ms=300, stop_on_failure=True)
 def s_echo_flow(vc):
-    shape = vc.case("shape", ["request+response", "request+error", "request+response+error"])
-    detail = vc.case("flow_detail", [1, 2, 3])
+    """echo_flow's own echo (the error line) and its call structure; the helpers it calls are under contract above and
+    are abstracted here to ghost calls."""
+    shape = vc.case("shape", ["request", "request+response", "request+error", "request+response+error"])
+    detail = vc.case("flow_detail", [1, 2, 3, 4])
     echoed = install_env(vc)
-    term_size(vc)
-    install_content(vc)
-    set_ctx_options(vc, flow_detail=detail, showhost=False, dumper_default_contentview="auto", content_view_lines_cutoff=2)
+    calls = []
+    for name in ("_echo_request_line", "_echo_response_line", "_echo_headers", "_echo_message", "_echo_trailers"):
+        vc.summary(D + "." + name, (lambda n: lambda v, self_, *a: calls.append(n))(name))
+    set_ctx_options(vc, flow_detail=detail)
     d, out = mk_dumper(vc)
     f = mk_http_flow(vc, "response" in shape, "error" in shape)
-    if "response" in shape:
-        f.response.trailers = mk_headers(vc, "trailer", 1)
     o = vc.call(D + ".echo_flow", d, f)
     vc.ensure("no_exception", o.ok)
     if not o.ok:
         return
     all_clean(vc, echoed)
-    vc.ensure("echoes_something", len(echoed) >= 2)
+    vc.ensure("error_line_iff_error", len(echoed) == (1 if "error" in shape else 0))
+    per_msg = (["_echo_headers"] if detail >= 2 else []) + (["_echo_message"] if detail >= 3 else []) + (["_echo_trailers"] if detail >= 2 else [])
+    expect = ["_echo_request_line"] + per_msg + ((["_echo_response_line"] + per_msg) if "response" in shape else [])
+    vc.ensure("helpers_called_per_detail_level", calls == expect)
     vc.ensure("flushed", vc.eq(out.flushed, True))
 
 
@@ -497,7 +521,7 @@ def mk_ws_flow(vc, close_code=None):
     return f, ws, msg
 
 
-@scenario("websocket_message", functions=[D + ".websocket_message", D + ".match"], z3_timeout_ms=1500, slice_pc=True, feas_timeout_ms=300)
+@scenario("websocket_message", functions=[D + ".websocket_message", D + ".match"], z3_timeout_ms=1500, slice_pc=True, feas_timeout_ms=300, stop_on_failure=True)
 def s_ws_message(vc):
     detail = vc.case("flow_detail", [1, 0])
     echoed = install_env(vc)
@@ -513,7 +537,7 @@ def s_ws_message(vc):
         vc.ensure_kf(f"echo[{i}].clean", clean(t), "KF-C49-2", Not(clean(f.request.path)))
 
 
-@scenario("websocket_end/format_websocket_error", functions=[D + ".websocket_end", D + ".format_websocket_error", D + ".match"], z3_timeout_ms=1500, slice_pc=True, feas_timeout_ms=300)
+@scenario("websocket_end/format_websocket_error", functions=[D + ".websocket_end", D + ".format_websocket_error", D + ".match"], z3_timeout_ms=1500, slice_pc=True, feas_timeout_ms=300, stop_on_failure=True)
 def s_ws_end(vc):
     echoed = install_env(vc)
     set_ctx_options(vc, flow_detail=1)
@@ -544,7 +568,7 @@ def mk_proto_flow(vc, kind, quic):
                   server_conn=vc.new(O, address=vc.opt("server_address", sock_addr(vc, "server"))))
 
 
-@scenario("_proto_message", functions=[D + "._proto_message", D + ".tcp_message", D + ".udp_message", D + ".match"], z3_timeout_ms=1500, slice_pc=True, feas_timeout_ms=300)
+@scenario("_proto_message", functions=[D + "._proto_message", D + ".tcp_message", D + ".udp_message", D + ".match"], z3_timeout_ms=1500, slice_pc=True, feas_timeout_ms=300, stop_on_failure=True)
 def s_proto_message(vc):
     kind = vc.case("type", ["tcp", "udp"])
     quic = vc.case("quic", [False, True, "no-metadata"])
@@ -562,7 +586,7 @@ def s_proto_message(vc):
     all_clean(vc, echoed)
 
 
-@scenario("_proto_error", functions=[D + "._proto_error", D + ".tcp_error", D + ".udp_error", D + ".match"], z3_timeout_ms=1500, slice_pc=True, feas_timeout_ms=300)
+@scenario("_proto_error", functions=[D + "._proto_error", D + ".tcp_error", D + ".udp_error", D + ".match"], z3_timeout_ms=1500, slice_pc=True, feas_timeout_ms=300, stop_on_failure=True)
 def s_proto_error(vc):
     kind = vc.case("type", ["tcp", "udp"])
     echoed = install_env(vc)
@@ -593,7 +617,7 @@ def mk_dns_flow(vc, n_answers):
     return f, q, answers
 
 
-@scenario("dns_response/_echo_dns_query", functions=[D + ".dns_response", D + "._echo_dns_query", D + "._fmt_client", D + ".match"], z3_timeout_ms=1500, slice_pc=True, feas_timeout_ms=300)
+@scenario("dns_response/_echo_dns_query", functions=[D + ".dns_response", D + "._echo_dns_query", D + "._fmt_client", D + ".match"], z3_timeout_ms=1500, slice_pc=True, feas_timeout_ms=300, stop_on_failure=True)
 def s_dns_response(vc):
     n = vc.case("answers", [0, 1, 2])
     echoed = install_env(vc)
@@ -611,7 +635,7 @@ def s_dns_response(vc):
     vc.ensure_kf("answer_line.clean", clean(echoed[1]), "KF-C49-5", Not(conj(clean(a.text) for a in answers)))
 
 
-@scenario("dns_error", functions=[D + ".dns_error", D + "._echo_dns_query", D + "._fmt_client", D + ".match"], z3_timeout_ms=1500, slice_pc=True, feas_timeout_ms=300)
+@scenario("dns_error", functions=[D + ".dns_error", D + "._echo_dns_query", D + "._fmt_client", D + ".match"], z3_timeout_ms=1500, slice_pc=True, feas_timeout_ms=300, stop_on_failure=True)
 def s_dns_error(vc):
     echoed = install_env(vc)
     set_ctx_options(vc, flow_detail=1)
@@ -626,3 +650,240 @@ def s_dns_error(vc):
         return
     vc.ensure_kf("query_line.clean", clean(echoed[0]), "KF-C49-4", Not(clean(q.name)))
     vc.ensure("error_line.clean", clean(echoed[1]))
+
+
+# =====================================================================================================================
+# T2 (bounded): the real Dumper on real flows of every type with control characters in every attacker-controlled field
+
+C0_PAYLOADS = ["\x1b[2J", "\x07", "\x00", "\x7f", "\x08", "\x1b]0;pwned\x07", "\x0b", "\x0c", "\x1bc"]
+C1_PAYLOADS = ["\x9b2J", "\x85", "\x90q\x9c"]
+
+
+def _sites():
+    """(check name, hook, builder(payload:str) -> flow, options) for every attacker-controlled field the dumper prints"""
+    from mitmproxy import dns, flow, http
+    from mitmproxy.test import tflow
+
+    def b(p):
+        return p.encode("utf-8")
+
+    def http_flow(mut, err=False):
+        def mk(p):
+            f = tflow.tflow(resp=True, err=bool(err))
+            f.request.headers["content-type"] = "text/plain"
+            f.response.headers["content-type"] = "text/plain"
+            mut(f, p)
+            return f
+        return mk
+
+    def ws_flow(mut):
+        def mk(p):
+            f = tflow.twebsocketflow()
+            mut(f, p)
+            return f
+        return mk
+
+    def proto_flow(kind, mut):
+        def mk(p):
+            f = (tflow.ttcpflow if kind == "tcp" else tflow.tudpflow)(err=True)
+            mut(f, p)
+            return f
+        return mk
+
+    def dns_flow(mut):
+        def mk(p):
+            f = tflow.tdnsflow(resp=True, err=True)
+            mut(f, p)
+            return f
+        return mk
+
+    def set_(path, fn=lambda p: p):
+        def mut(f, p):
+            o = f
+            parts = path.split(".")
+            for a in parts[:-1]:
+                o = getattr(o, a)
+            setattr(o, parts[-1], fn(p))
+        return mut
+
+    def hdr(which, pos):
+        def mut(f, p):
+            m = getattr(f, which)
+            pair = (b"x-" + b(p), b"v") if pos == "name" else (b"x-h", b"v" + b(p))
+            m.headers = http.Headers(tuple(m.headers.fields) + (pair,))
+        return mut
+
+    def ws_msg(is_text):
+        def mut(f, p):
+            from mitmproxy.websocket import WebSocketMessage
+            from wsproto.frame_protocol import Opcode
+            f.websocket.messages.append(WebSocketMessage(Opcode.TEXT if is_text else Opcode.BINARY, True, b("hello" + p)))
+        return mut
+
+    def last_msg(f, p):
+        f.messages[-1].content = b("data" + p)
+
+    S = []
+    for hook in ("response", "error"):
+        e = hook == "error"
+        S += [
+            (f"dumper.clean.{hook}.request_method", hook, http_flow(set_("request.method", lambda p: "GE" + p), e), {}),
+            (f"dumper.clean.{hook}.request_path", hook, http_flow(set_("request.path", lambda p: "/a" + p), e), {}),
+            (f"dumper.clean.{hook}.request_host_header", hook, http_flow(lambda f, p: f.request.headers.__setitem__("host", "exa" + p + "mple.com"), e), {"showhost": True}),
+            (f"dumper.clean.{hook}.request_header_name", hook, http_flow(hdr("request", "name"), e), {}),
+            (f"dumper.clean.{hook}.request_header_value", hook, http_flow(hdr("request", "value"), e), {}),
+            (f"dumper.clean.{hook}.response_header_name", hook, http_flow(hdr("response", "name"), e), {}),
+            (f"dumper.clean.{hook}.response_header_value", hook, http_flow(hdr("response", "value"), e), {}),
+            (f"dumper.clean.{hook}.request_content", hook, http_flow(set_("request.content", lambda p: b("body" + p)), e), {}),
+            (f"dumper.clean.{hook}.response_content", hook, http_flow(set_("response.content", lambda p: b("body" + p)), e), {}),
+            (f"dumper.clean.{hook}.response_reason", hook, http_flow(set_("response.reason", lambda p: "OK" + p), e), {}),
+            (f"dumper.clean.{hook}.response_trailers", hook, http_flow(lambda f, p: setattr(f.response, "trailers", http.Headers([(b"t-" + b(p), b"v" + b(p))])), e), {}),
+        ]
+    S += [
+        ("dumper.clean.error.error_msg", "error", http_flow(lambda f, p: setattr(f, "error", flow.Error("err" + p)), True), {}),
+        ("dumper.clean.websocket_message.content_text", "websocket_message", ws_flow(ws_msg(True)), {}),
+        ("dumper.clean.websocket_message.content_binary", "websocket_message", ws_flow(ws_msg(False)), {}),
+        ("dumper.clean.websocket_message.request_path", "websocket_message", ws_flow(set_("request.path", lambda p: "/ws" + p)), {}),
+        ("dumper.clean.websocket_end.close_reason", "websocket_end", ws_flow(lambda f, p: (setattr(f.websocket, "close_code", 1000), setattr(f.websocket, "close_reason", "bye" + p))), {}),
+        ("dumper.clean.websocket_end.close_reason", "websocket_end", ws_flow(lambda f, p: (setattr(f.websocket, "close_code", 1006), setattr(f.websocket, "close_reason", "bye" + p))), {}),
+        ("dumper.clean.websocket_end.close_reason", "websocket_end", ws_flow(lambda f, p: (setattr(f.websocket, "close_code", 4999), setattr(f.websocket, "close_reason", "bye" + p))), {}),
+        ("dumper.clean.tcp_message.content", "tcp_message", proto_flow("tcp", last_msg), {}),
+        ("dumper.clean.udp_message.content", "udp_message", proto_flow("udp", last_msg), {}),
+        ("dumper.clean.proto_error.error_msg", "tcp_error", proto_flow("tcp", lambda f, p: setattr(f, "error", flow.Error("err" + p))), {}),
+        ("dumper.clean.proto_error.error_msg", "udp_error", proto_flow("udp", lambda f, p: setattr(f, "error", flow.Error("err" + p))), {}),
+        ("dumper.clean.dns.question_name", "dns_response", dns_flow(lambda f, p: setattr(f.request.questions[0], "name", "a" + p + ".example")), {}),
+        ("dumper.clean.dns.question_name", "dns_error", dns_flow(lambda f, p: setattr(f.request.questions[0], "name", "a" + p + ".example")), {}),
+        ("dumper.clean.dns_response.answer", "dns_response", dns_flow(lambda f, p: setattr(f.response, "answers", [dns.ResourceRecord.TXT("t.example", "txt" + p)])), {}),
+        ("dumper.clean.dns_response.answer", "dns_response", dns_flow(lambda f, p: setattr(f.response, "answers", [dns.ResourceRecord("c.example", dns.types.CNAME, dns.classes.IN, 60, bytes([4]) + b(p)[:4].ljust(4, b"x") + bytes([0]))])), {}),
+        ("dumper.clean.dns_error.error_msg", "dns_error", dns_flow(lambda f, p: setattr(f, "error", flow.Error("err" + p))), {}),
+        # outside the contract's accepted fragment class (formatted socket address): reported separately (KF-C49-7)
+        ("dumper.clean.server_address", "tcp_message", proto_flow("tcp", lambda f, p: setattr(f.server_conn, "address", ("host" + p, 80))), {}),
+        ("dumper.clean.server_address", "tcp_error", proto_flow("tcp", lambda f, p: setattr(f.server_conn, "address", ("host" + p, 80))), {}),
+        ("dumper.clean.server_address", "websocket_message", ws_flow(lambda f, p: setattr(f.server_conn, "address", ("host" + p, 80))), {}),
+    ]
+    return S
+
+
+def bounded(tier, seed):
+    import io
+    import itertools
+    import re
+    from mitmproxy.addons import dumper
+    from mitmproxy.contrib import click as miniclick
+    from mitmproxy.net.http.http1 import read as h1read
+    from mitmproxy.test import taddons
+    from mitmproxy.utils import human, strutils
+    import mitmproxy_rs
+
+    b = Bounded()
+    b.rule = ("the real Dumper hooks (response, error, websocket_message/_end, tcp/udp_message/_error, dns_response/_error) on real flows with one control-character "
+              "payload in one attacker-controlled field x flow_detail 0-4 x styling on/off; output scanned after removing exactly the SGR sequences (ESC [ digits;... m) "
+              "click.style emits when styling is on; plus unit contracts of the summarised callees (indent, bytes_to_escaped_str, format_address, pretty_size, click.style, "
+              "the Rust highlighter, the HTTP/1 version check); distinct = (site, hook, payload, detail, styled); non-trivial = something was written")
+    b.bound = f"{len(C0_PAYLOADS)} C0/DEL payloads + {len(C1_PAYLOADS)} C1 payloads per field; strings <= 4 over 11 symbols for indent; all byte strings <= 2 for bytes_to_escaped_str"
+    b.exhaustive = True
+    SGR = re.compile(r"\x1b\[[0-9;]*m")
+    sites = _sites()
+    for detail, styled in itertools.product(range(5), (False, True)):
+        sio = io.StringIO()
+        d = dumper.Dumper(sio)
+        d.out_has_vt_codes = styled
+        with taddons.context(d) as tctx:
+            for check, hook, mk, opts in sites:
+                tctx.configure(d, flow_detail=detail, showhost=bool(opts.get("showhost")))
+                for p in C0_PAYLOADS + C1_PAYLOADS:
+                    f = mk(p)
+                    sio.seek(0)
+                    sio.truncate()
+                    inp = {"site": check, "hook": hook, "payload": p.encode("unicode_escape").decode(), "flow_detail": detail, "styled": styled}
+                    try:
+                        getattr(d, hook)(f)
+                    except Exception as e:  # the dumper must not raise on odd traffic either
+                        b.fail("dumper.total", inp, f"{type(e).__name__}: {e}")
+                        continue
+                    out = sio.getvalue()
+                    b.case((check, hook, p, detail, styled), nontrivial=bool(out))
+                    if detail == 0 and out:
+                        b.fail("dumper.quiet_at_detail_0", inp, repr(out[:200]))
+                    scan = SGR.sub("", out) if styled else out
+                    bad0 = sorted({hex(ord(c)) for c in scan if ord(c) in BAD})
+                    bad1 = sorted({hex(ord(c)) for c in scan if ord(c) in C1})
+                    if bad0:
+                        b.fail(check, inp, f"control characters {bad0} in output {out[:300]!r}")
+                    if bad1:
+                        b.fail("dumper.no_c1_controls", inp, f"C1 control characters {bad1} in output {out[:300]!r}")
+    # ---- contracts of the callees summarised in T1
+    alpha = ["a", " ", "\n", "\r", "\t", "\x0b", "\x0c", "\x1b", "\x1c", "\x85", " "]
+    for n in range(0, (4 if tier == "quick" else 5) + 1):
+        for tup in itertools.product(alpha, repeat=n):
+            t = "".join(tup)
+            for ident in (0, 4):
+                r = dumper.indent(ident, t)
+                b.case(("indent", t, ident), nontrivial=n > 0)
+                if not set(r) <= set(t) | {" ", "\n"}:
+                    b.fail("indent.char_subset", {"text": t.encode("unicode_escape").decode(), "ident": ident}, repr(r))
+    maxlen = 2 if tier == "quick" else 2
+    for n in range(0, maxlen + 1):
+        for tup in itertools.product(range(256), repeat=n):
+            data = bytes(tup)
+            for ks, esq in ((False, False), (True, False), (False, True), (True, True)):
+                r = strutils.bytes_to_escaped_str(data, ks, esq)
+                b.case(("b2e", data, ks, esq), nontrivial=n > 0)
+                if not printable_ascii(r, ks):
+                    b.fail("b2e.printable_ascii", {"data": data.hex(), "keep_spacing": ks, "escape_single_quotes": esq}, repr(r))
+    for c in list(range(0, 0x300)) + [0x2028, 0x2029, 0xFFFD, 0x1F600]:
+        for keep in (True, False):
+            r = strutils.escape_control_characters("a" + chr(c) + "b", keep)
+            b.case(("escape", c, keep))
+            if not clean(r) or (not keep and any(x in r for x in "\t\n\r")) or len(r) != 3:
+                b.fail("escape.clean", {"char": hex(c), "keep_spacing": keep}, repr(r))
+            if not no_c1(r):
+                b.fail("dumper.no_c1_controls", {"site": "escape_control_characters", "char": hex(c), "keep_spacing": keep}, repr(r))
+    addrs = [None, ("127.0.0.1", 80), ("0.0.0.0", 1), ("::", 2), ("::1", 443, 0, 0), ("::ffff:10.0.0.1", 8080), ("2001:db8::1", 53, 0, 0), ("example.com", 443), ("münchen.de", 1), ("fe80::1%eth0", 5)]
+    for a in addrs:
+        r = human.format_address(a)
+        b.case(("format_address", a))
+        if a is None or clean(a[0]):
+            if not clean(r):
+                b.fail("format_address.clean", repr(a), repr(r))
+    for size in [0, 1, 1023, 1024, 1025, 99 * 1024, 100 * 1024, 2 ** 20, 2 ** 30, 2 ** 40, 2 ** 50, 2 ** 63] + [3 ** k for k in range(40)]:
+        r = human.pretty_size(size)
+        b.case(("pretty_size", size))
+        if not printable_ascii(r):
+            b.fail("pretty_size.ascii", size, repr(r))
+    styles = [dict(fg="blue"), dict(fg="magenta"), dict(fg="yellow", bold=True), dict(fg="green", bold=True), dict(fg="red", bold=True), dict(bold=True), dict(dim=True),
+              dict(fg="bright_blue"), dict(fg=None, bold=True, blink=False), dict(fg="red", bold=True, blink=True)] + [dict(v) for v in dumper.CONTENTVIEW_STYLES.values()]
+    for st in styles:
+        for text in ("", "abc", "a b\nc", "[0m"):
+            r = miniclick.style(text, **st)
+            b.case(("click.style", text, repr(st)))
+            if not re.fullmatch(r"(\x1b\[[0-9;]*m)*" + re.escape(text) + r"\x1b\[0m", r):
+                b.fail("click.style.shape", {"text": text, "style": repr(st)}, repr(r))
+    import random
+    rnd = random.Random(seed)
+    pool = ["{\"a\": 1}", "<a href='x'>t</a>", "a: b\n- c", "body { color: red }", "x\x1b[2Jy", "\x00\x9b", "é z", ""]
+    for _ in range(60 if tier == "quick" else 600):
+        pool.append("".join(rnd.choice("ab{}:<>\"' \n\t\x1b\x07\x9bé#/*-") for _ in range(rnd.randint(0, 24))))
+    for lang in mitmproxy_rs.syntax_highlight.languages():
+        for t in pool:
+            try:
+                chunks = mitmproxy_rs.syntax_highlight.highlight(t, lang)
+            except Exception as e:
+                b.fail("highlight.total", {"lang": lang, "text": t.encode("unicode_escape").decode()}, repr(e))
+                continue
+            b.case(("highlight", lang, t))
+            if "".join(c for _, c in chunks) != t:
+                b.fail("highlight.concat", {"lang": lang, "text": t.encode("unicode_escape").decode()}, repr(chunks))
+    # HTTP/1 start lines: whatever http_version the reader accepts is Clean
+    for c in range(256):
+        for ver in (b"HTTP/1.1" + bytes([c]), bytes([c]) + b"HTTP/1.1", b"HTTP/1." + bytes([c]), b"HTTP/" + bytes([c]) + b".1"):
+            for kind in ("request", "response"):
+                line = (b"GET / " + ver) if kind == "request" else (ver + b" 200 OK")
+                b.case(("http1.version", kind, ver))
+                try:
+                    got = h1read._read_request_line(line)[6] if kind == "request" else h1read._read_response_line(line)[0]
+                except ValueError:
+                    continue
+                if not clean(got.decode("utf-8", "surrogateescape")):
+                    b.fail("http1.version_validated", {"kind": kind, "line": line.hex()}, repr(got))
+    return b
